@@ -19,7 +19,7 @@ P = {
          "Accept/reject, value, consumed length, remainder identity and error kind of the real decoder are compared with a reference decoder written from the specification on every byte string of length <= 3 (quick) / <= 4 (thorough) for the 16-bit varint decoders, all short strings for bool/u8/i8/options, boundary-structured strings for the wider varints, and valid/prefix/corrupted/re-padded/random inputs for random and concrete shapes. A lean workload is also interpreted by Miri for a 32-bit target (i686; stage miri32), where length prefixes are 32-bit varints. (quick and thorough: length prefixes 2^32-1, 2^32, over-long paddings against the reference decoder parametrised by the pointer width)",
          "Trusts the reference decoder (validated against the canonicalization and max-length tables of the specification)."),
  "C04": ("exploration", "4 C04", "guard pages + counting allocator + panic monitor + Miri for x86-64 and i686 (+ASan and valgrind memcheck in thorough)",
-         "Hostile inputs (mutated-valid, random, adversarial length prefixes up to usize::MAX) are decoded with the input flush against PROT_NONE pages on either side, under catch_unwind, with a thread-local counting allocator enforcing the allocation bound and pointer-range monitors on every borrowed str/bytes; concrete types also through the checksum-verifying slice decoders; operation histories on one flavour object (IOReader over a guarded scratch buffer, Slice over a guarded input, one Deserializer decoding further values after a refused one) are checked against a model of slot positions; the same workload is interpreted by Miri (quick) and run under ASan and valgrind memcheck (thorough).",
+         "Hostile inputs (mutated-valid, random, adversarial length prefixes up to usize::MAX) are decoded with the input flush against PROT_NONE pages on either side, under catch_unwind, with a thread-local counting allocator enforcing the allocation bound and pointer-range monitors on every borrowed str/bytes; concrete types also through the checksum-verifying slice decoders; operation histories on one flavour object (IOReader over a guarded scratch buffer, Slice over a guarded input, one Deserializer decoding further values after a refused one) are checked against a model of slot positions; hostile inputs of growing depth are decoded into recursive target types in child processes of the worker (a stack overflow cannot be caught in process; recorded as known finding F8); the same workload is interpreted by Miri (quick) and run under ASan and valgrind memcheck (thorough).",
          "Guard pages only see accesses that cross a page edge adjacent to the buffer; Miri covers the rest on a smaller workload. The allocation bound constant is justified in DESIGN 4 C04."),
  "C05": ("fault_enumeration", "4 C05", "capacity fault enumeration with guard pages, canaries, Miri (+ASan, valgrind memcheck and Miri i686 in thorough)",
          "For every sampled value the buffer-full fault is injected at every byte position (every capacity 0..L+2) for slice storage in plain/COBS/CRC framing and at a menu of const capacities for heapless storage; success iff capacity >= L, exact bytes, untouched tail, buffer-full error, canaries and guard pages intact, serialized_size == L; operation histories on one Slice flavour (writes after a refused write) under guard page and canary; one-shot and self-stamping values (non-idempotent Serialize impls) through every public entry point.",
